@@ -8,7 +8,7 @@ import (
 	"sort"
 	"strings"
 
-	"golang.org/x/tools/go/ssa"
+	"trzszlint/xssa"
 )
 
 func init() {
